@@ -42,13 +42,18 @@ BGRAPH, SELFOBJ, NODEDATA, EDGEDATA, SGRAPH = ("BGraph",), ("SelfObject",), ("No
 STG = ("PathEncGraph",)
 def VarDictK(fam, K): return ("VarDictK", fam, K)
 K3, K2, K1 = ("Tuple", ("Node",), ("Node",), ("Int",)), ("Tuple", ("Int",), ("Int",)), ("Int",)
-KEYENC = {K3: ("vkey3", "eqb3"), K2: ("vkey2", "eqb2"), K1: ("vkey1", "Z.eqb"), ("Tuple", ("Node",), ("Node",)): ("vkeyE", "edge_eqb")}
+K3Z = ("Tuple", ("Int",), ("Int",), ("Int",))
+KEYENC = {K3: ("vkey3", "eqb3"), K2: ("vkey2", "eqb2"), K1: ("vkey1", "Z.eqb"), ("Tuple", ("Node",), ("Node",)): ("vkeyE", "edge_eqb"), K3Z: ("vkey3z", "eqb3z")}
 # name_prefix="<literal>" of self.solver.add_variables in the model classes -> variable family of Lin.v (the table of harness/e1.py)
 PREFIX_LITERAL = {"edge": "fEdge", "pi": "fPi", "w": "fW", "r": "fR", "position": "fPos", "path_length": "fLen",
-                  "weights": "fW", "ee": "fErr", "slack": "fSlack", "gamma": "fGamma", "path_slack_scaled": "fFactor", "scaled_slack": "fSSlack"}
+                  "weights": "fW", "ee": "fErr", "slack": "fSlack", "gamma": "fGamma", "path_slack_scaled": "fFactor", "scaled_slack": "fSSlack",
+                  "subset": "fSub", "edge_vars": "fX", "edge_error_vars": "fErr",
+                  "gen_set": "fGen", "x": "fX", "y": "(30)%N", "product_y": "(31)%N"}          # 30 / 31: MiscEnc.fY / fPiY
 # name / name_prefix f-strings handed to the wrapper helpers by the model classes: f"<literal>{i}" names the helper variables of layer i after
 # the variable V <family> [i] (harness/e1err.py reads the same names back: binary_scaled_slack_i<i> -> Bit (SSlack i) .., z_error_scale_<i> -> Zsel (Factor i) ..)
-HNAME_FSTRING = {"scaled_slack_i": "fSSlack", "error_scale_": "fFactor"}          # kLeastAbsErrors / kMinPathError name their weight columns "weights", the error columns "ee"
+HNAME_FSTRING = {"scaled_slack_i": "fSSlack", "error_scale_": "fFactor"}
+# f"pi_i={i}_j={j}" (MinGenSet): the helper variables of the product pi[(i, j)] (harness/e1misc.py: binary_pi_i=<i>_j=<j> -> Bit (Pij i j) ..)
+HNAME_FSTRING2 = {("pi_i=", "_j="): "fPi"}          # kLeastAbsErrors / kMinPathError name their weight columns "weights", the error columns "ee"
 ERASED = (("Attr",), ("Wrapper",), ("Str",), ("SelfObject",))        # parameters of these types do not appear in the Gallina signature
 EDGE = Tuple(NODE, NODE)
 DEDGE = Tuple(NODE, NODE, EDATA)
@@ -174,6 +179,40 @@ TARGETS["encode_kmpe_obj"] = dict(
     file="flowpaths/kminpatherror.py", cls="kMinPathError", func="_encode_objective", params=[SELFOBJ], defaults=[], ret=NONE, emits=True,
     selfobj=dict(inputs=[("solver", WRAP), ("k", INT), ("path_slacks_vars", VarDictK("fSlack", K1))], outputs=[], calls={}))
 
+# ---- MinSetCover._encode_set_cover: subset variables, one cover row per universe element, the weighted objective
+TARGETS["encode_msc"] = dict(
+    file="flowpaths/minsetcover.py", cls="MinSetCover", func="_encode_set_cover", params=[SELFOBJ], defaults=[], ret=NONE, emits=True,
+    selfobj=dict(inputs=[("solver", WRAP), ("universe", List(NODE)), ("subsets", List(List(NODE))), ("subset_weights", List(NUM))],
+                 outputs=[("subset_indexes", List(K1)), ("subset_vars", VarDictK("fSub", K1))], calls={}))
+
+# ---- MinErrorFlow: corrected-flow and error variables, conservation rows, |f - x| <= err rows; the objective (scaled errors + sparsity term)
+TARGETS["encode_mef"] = dict(
+    file="flowpaths/minerrorflow.py", cls="MinErrorFlow", func="_encode_flow", params=[SELFOBJ], defaults=[], ret=NONE, emits=True,
+    selfobj=dict(inputs=[("solver", WRAP), ("G", GRAPH), ("ub", NUM), ("edges_to_ignore", Set(EDGE)), ("flow_attr", ATTR)],
+                 outputs=[("edge_indexes", List(EDGE)), ("edge_vars", VarDictK("fX", EDGE)), ("edge_error_vars", VarDictK("fErr", EDGE))],
+                 calls={"self.weight_type == int": ("weight_is_int", BOOL)}))
+TARGETS["encode_mef_obj"] = dict(
+    file="flowpaths/minerrorflow.py", cls="MinErrorFlow", func="_encode_min_sum_errors_objective", params=[SELFOBJ], defaults=[], ret=NONE, emits=True,
+    selfobj=dict(inputs=[("solver", WRAP), ("G", GRAPH), ("edge_vars", VarDictK("fX", EDGE)), ("edge_error_vars", VarDictK("fErr", EDGE)),
+                         ("edges_to_ignore", Set(EDGE)), ("edge_error_scaling", Dict(EDGE, NUM)), ("sparsity_lambda", NUM)],
+                 outputs=[], calls={"self.G.source": ("source", NODE)}))
+
+# ---- MinGenSet._create_solver(k) with the two methods it calls
+_MGS_IN = [("solver", WRAP), ("total", NUM), ("genset_vars", VarDictK("fGen", K1))]
+TARGETS["encode_mgs_sym"] = dict(
+    file="flowpaths/mingenset.py", cls="MinGenSet", func="_encode_symmetry_breaking", params=[SELFOBJ, INT], defaults=[], ret=NONE, emits=True,
+    selfobj=dict(inputs=[("solver", WRAP), ("genset_vars", VarDictK("fGen", K1))], outputs=[], calls={}))
+TARGETS["encode_mgs_part"] = dict(
+    file="flowpaths/mingenset.py", cls="MinGenSet", func="_encode_partition_constraints", params=[SELFOBJ, INT], defaults=[], ret=NONE, emits=True,
+    selfobj=dict(inputs=_MGS_IN + [("partition_constraints", Opt(List(List(NUM))))], outputs=[],
+                 calls={"self.weight_type == int": ("weight_is_int", BOOL)}))
+TARGETS["encode_mgs"] = dict(
+    file="flowpaths/mingenset.py", cls="MinGenSet", func="_create_solver", params=[SELFOBJ, INT], defaults=[], ret=NONE, emits=True,
+    selfobj=dict(inputs=[("solver", WRAP), ("total", NUM), ("numbers", List(NUM)), ("max_multiplicity", INT), ("partition_constraints", Opt(List(List(NUM))))],
+                 outputs=[("genset_indexes", List(K1)), ("x_indexes", List(K2)), ("genset_vars", VarDictK("fGen", K1)), ("x_vars", VarDictK("fX", K2)),
+                          ("pi_vars", VarDictK("fPi", K2))],
+                 calls={"self.weight_type == int": ("weight_is_int", BOOL)}))
+
 # a query of stDiGraph on data networkx computed (condensation): the expressions below are inputs of the model
 TARGETS["is_scc_edge"] = dict(file="flowpaths/stdigraph.py", cls="stDiGraph", func="is_scc_edge", params=[SELFOBJ, NODE, NODE], defaults=[], ret=BOOL,
                               selfobj=dict(inputs=[], outputs=[],
@@ -252,6 +291,7 @@ def join(a, b, node=None):
     if a in NUMERIC and b in NUMERIC:
         return a if NUMERIC[a] >= NUMERIC[b] else b
     if a in (VAR, LEXP) and b in (VAR, LEXP): return LEXP        # a variable or a linear expression: a linear expression
+    if (a == LEXP and b in (INT, NUM)) or (b == LEXP and a in (INT, NUM)): return LEXP      # `expr if c else 0` as a summand: the number is a constant expression
     if a == NONE: return b if b[0] == "Opt" else Opt(b)
     if b == NONE: return a if a[0] == "Opt" else Opt(a)
     if a[0] == "Opt" and b[0] == "Opt": return Opt(join(a[1], b[1], node))
@@ -454,6 +494,10 @@ class Fn:
         self.loopvars = []       # loop targets in order (one entry per binding occurrence)
         self.for_names = {}      # id(For node) -> generated names of its targets
         self.for_iters = {}      # loop-target name -> the iterated expressions (ast.dump) of all loops that bind it
+        self.for_nodes = {}      # loop-target name -> the For nodes that bind it
+        self.top_index = {}      # id(ast node) -> index of the top-level statement of the function that contains it
+        for ti, st_ in enumerate(self.fdef.body):
+            for nd in ast.walk(st_): self.top_index[id(nd)] = ti
         def targets_of_for(t):
             if isinstance(t, ast.Name): return [t.id]
             if isinstance(t, ast.Tuple) and all(isinstance(x, ast.Name) for x in t.elts): return [x.id for x in t.elts]
@@ -464,6 +508,9 @@ class Fn:
             for s in stmts:
                 if isinstance(s, ast.Assign) and len(s.targets) == 1 and self.self_attr(s.targets[0]) in self.s_out:
                     continue          # assignment to an output attribute of self
+                if isinstance(s, ast.Assign) and len(s.targets) == 1 and self.self_attr(s.targets[0]) is not None \
+                        and self.s_in.get(self.self_attr(s.targets[0])) == WRAP:
+                    continue          # self.solver = <fresh wrapper> (checked in stmt)
                 if isinstance(s, ast.Assign):
                     if len(s.targets) != 1 or not isinstance(s.targets[0], ast.Name):
                         raise Unsupported("assignment target (only `name = expr`)", s)
@@ -487,7 +534,7 @@ class Fn:
                 elif isinstance(s, ast.For):
                     ns = targets_of_for(s.target)
                     if len(set(ns)) != len(ns): raise Unsupported("loop target repeats a name", s)
-                    for n in ns: self.for_iters.setdefault(n, []).append(ast.dump(s.iter))
+                    for n in ns: self.for_iters.setdefault(n, []).append(ast.dump(s.iter)); self.for_nodes.setdefault(n, []).append(s)
                     self.for_names[id(s)] = []
                     for n in ns:       # every loop gets fresh i<k> names; the same Python name may be reused by a LATER loop
                         self.for_names[id(s)].append("i%d" % len(self.loopvars))
@@ -532,7 +579,19 @@ class Fn:
             # iteration ever bound i.  Exact when EVERY loop that binds the name runs over the same (stable) list expression — it is bound iff
             # that list is non-empty — and one of them precedes the read in this block.
             if env.get("in_fstring") and n in env.get("postloop", {}) and len(set(self.for_iters.get(n, []))) == 1:
-                return "tt", STR, [("(py_list_is_empty %s)" % env["postloop"][n], "UnboundLocalError")]
+                return "tt", STR, [("(py_list_is_empty %s)" % env["postloop"][n][-1][1][-1], "UnboundLocalError")]
+            # Otherwise: every loop that binds the name either is accounted for — it precedes the read in this block (or is the first statement of
+            # such a loop, nested), so it ran iff all the (stable) lists on the way to it are non-empty — or lies in a LATER top-level statement of the
+            # function (it cannot have run yet).  The name is unbound iff none of the accounted loops ran.
+            if env.get("in_fstring") and n in env.get("postloop", {}):
+                alts = env["postloop"][n]; covered = set().union(*[a[0] for a in alts])
+                if all(id(f) in covered or self.top_index.get(id(f), -1) > self.top_index.get(id(e), 10 ** 9) for f in self.for_nodes.get(n, [])):
+                    term = None
+                    for _, conds in alts:
+                        one = None
+                        for c in conds: one = "(py_list_is_empty %s)" % c if one is None else "(orb %s (py_list_is_empty %s))" % (one, c)
+                        term = one if term is None else "(andb %s %s)" % (term, one)
+                    return "tt", STR, [(term, "UnboundLocalError")]
             raise Unsupported("read of loop variable %r outside its loop" % n, e)
         if n in self.params:
             return self.aname[n], self.ptype[n], []
@@ -861,14 +920,14 @@ class Fn:
         """[ELT for v in LIST] / (ELT for v in LIST), also with a tuple target and with a second `for`: map / flat_map.
         Partial operations in ELT (a KeyError of d[k], ...) are hoisted in front of the statement: Python would raise at the
         first element where one fails, with the kind of the first one that fails there."""
-        if not (1 <= len(e.generators) <= 2): raise Unsupported("comprehension with more than two generators", e)
+        if not (1 <= len(e.generators) <= 3): raise Unsupported("comprehension with more than three generators", e)
         pats = []; its = []; ig = []; bound_now = []
         try:
             for gi, g in enumerate(e.generators):
                 if g.is_async or (g.ifs and len(e.generators) != 1): raise Unsupported("comprehension with a filter and a second generator / async", e)
                 it, ity, gg = self.expr(g.iter, env)
                 if ity[0] != "List": raise Unsupported("comprehension over a value of type %s" % show(ity), e)
-                if gi == 1 and gg: raise Unsupported("partial operation in the second generator of a comprehension", g.iter)
+                if gi >= 1 and gg: raise Unsupported("partial operation in a later generator of a comprehension", g.iter)
                 ig += gg
                 if isinstance(g.target, ast.Name): names = [g.target.id]; tys = [ity[1]]
                 elif isinstance(g.target, ast.Tuple) and all(isinstance(x, ast.Name) for x in g.target.elts):
@@ -883,22 +942,34 @@ class Fn:
                     c = "c%d" % env["ncomp"][0]; env["ncomp"][0] += 1
                     env["bound"][v] = (c, ty, self.src_key(g.iter) if len(names) == 1 else None); bound_now.append(v); cn.append(c)
                 pat = cn[0] if len(cn) == 1 else "'(" + ", ".join(cn) + ")"
+                fguards = []; fcond = None; it0 = it
                 for cond in g.ifs:          # [.. for v in L if C]: the elements of L that satisfy C, in order
                     ct, cty, cg = self.expr(cond, env)
                     if cty != BOOL: raise Unsupported("comprehension filter of type %s" % show(cty), cond)
-                    if cg: raise Unsupported("partial operation in a comprehension filter", cond)
+                    if cg and (len(g.ifs) != 1 or len(e.generators) != 1): raise Unsupported("partial operation in one of several comprehension filters", cond)
+                    fguards = cg; fcond = ct
                     it = "(filter (fun %s => %s) %s)" % (pat, ct, it)
                 pats.append(pat); its.append(it)
             t, ty, tg = self.expr(e.elt, env)
+            if len(e.generators) == 1 and e.generators[0].ifs and fguards:
+                # Python evaluates, element by element of the UNFILTERED list, first the filter (its partial operations), then — if it holds — the element
+                tg = list(fguards) + [("(andb %s %s)" % (fcond, x), ex) for x, ex in tg]
+                hoist_list = it0
+            else: hoist_list = None
         finally:
             for v in bound_now: del env["bound"][v]
         if len(pats) == 1:
             term = "(map (fun %s => %s) %s)" % (pats[0], t, its[0])
-            allpat, alllist = pats[0], its[0]
-        else:
+            allpat, alllist = pats[0], (hoist_list if hoist_list is not None else its[0])
+        elif len(pats) == 2:
             term = "(flat_map (fun %s => map (fun %s => %s) %s) %s)" % (pats[0], pats[1], t, its[1], its[0])
             allpat = "'(%s, %s)" % (pats[0].lstrip("'"), pats[1].lstrip("'"))
             alllist = "(flat_map (fun %s => map (fun %s => (%s, %s)) %s) %s)" % (pats[0], pats[1], pats[0].lstrip("'"), pats[1].lstrip("'"), its[1], its[0])
+        else:
+            term = "(flat_map (fun %s => flat_map (fun %s => map (fun %s => %s) %s) %s) %s)" % (pats[0], pats[1], pats[2], t, its[2], its[1], its[0])
+            p0, p1, p2 = (x.lstrip("'") for x in pats)
+            allpat = "'(%s, %s, %s)" % (p0, p1, p2)
+            alllist = "(flat_map (fun %s => flat_map (fun %s => map (fun %s => (%s, %s, %s)) %s) %s) %s)" % (pats[0], pats[1], pats[2], p0, p1, p2, its[2], its[1], its[0])
         hoisted = []
         if tg:
             anyfail = tg[-1][0]
@@ -971,6 +1042,13 @@ class Fn:
                 if ty not in (INT, NUM): raise Unsupported("log2 of %s" % show(ty), e)
                 q = coerce(t, ty, NUM, e)
                 return "(py_ceil_log2 %s)" % q, BITS, g + [("(Qle_bool %s (0#1)%%Q)" % q, "ValueError")]      # log2(x <= 0): math domain error
+            if n == "enumerate" and len(e.args) == 1 and not e.keywords:
+                t, ty, g = self.expr(e.args[0], env)
+                if ty[0] != "List": raise Unsupported("enumerate of a value of type %s" % show(ty), e)
+                return "(combine (py_range (py_len %s)) %s)" % (t, t), List(Tuple(INT, ty[1])), g
+            if n == "max" and len(e.args) == 1 and not e.keywords:
+                t, ty, g = self.expr(e.args[0], env)
+                if ty == List(INT): return "(py_list_max_Z %s)" % t, INT, g + [("(py_list_is_empty %s)" % t, "ValueError")]
             if n in ("max", "min") and len(e.args) == 1:
                 t, ty, g = self.expr(e.args[0], env)
                 if ty != List(NUM): raise Unsupported("%s of a value of type %s" % (n, show(ty)), e)
@@ -1045,6 +1123,11 @@ class Fn:
                     return "(py_quicksum %s)" % t, LEXP, rg + g
                 raise Unsupported("call of self.%s in an expression" % m, e)
             if rty == GRAPH:
+                if m == "edges" and not e.args and not kw: return "(map fst (PyRt.g_edges %s))" % recv, List(EDGE), rg
+                if m in ("out_edges", "in_edges") and len(e.args) == 1 and not kw:
+                    v, vty, vg = self.expr(e.args[0], env)
+                    if vty != NODE: raise Unsupported("%s of a non-node" % m, e)
+                    return "(map fst (py_%s %s %s))" % (m, recv, v), List(EDGE), rg + vg
                 if m == "nodes" and not e.args and not kw: return "(g_nodes %s)" % recv, List(NODE), rg
                 if m == "edges" and not e.args and data_true(): return "(g_edges %s)" % recv, List(DEDGE), rg
                 if m in ("out_edges", "in_edges") and len(e.args) == 1 and data_true():
@@ -1117,6 +1200,46 @@ class Fn:
                 and self.s_in.get(self.self_attr(e.func.value)) == WRAP and self.sparam not in env["bound"]:
             return e.func.attr          # self.solver.<method>(...)
         return None
+
+    def self_method_call(self, e, env):
+        """`self.<method>(args)` on the object itself, where <method> is another translated emitter of the same class that assigns no attribute:
+        its columns / rows are appended, its exception propagates (py_emit_call).  Returns the statement term or None."""
+        if not (self.emits and self.selfobj and isinstance(e, ast.Call) and isinstance(e.func, ast.Attribute) and isinstance(e.func.value, ast.Name)
+                and e.func.value.id == self.sparam and self.sparam not in env["bound"]): return None
+        m = e.func.attr
+        cands = [k for k, v in TARGETS.items() if v.get("emits") and v.get("selfobj") and v["cls"] == self.spec["cls"] and v["file"] == self.spec["file"] and v["func"] == m and k != self.target]
+        if len(cands) != 1: raise Unsupported("call of self.%s (not a translated method of this class)" % m, e)
+        callee = cands[0]; cs = TARGETS[callee]; so = cs["selfobj"]
+        if so.get("outputs") or so.get("graph") or cs["ret"] != NONE: raise Unsupported("call of self.%s: the callee assigns attributes / returns a value" % m, e)
+        fs = [n for n in self.classdef.body if isinstance(n, ast.FunctionDef) and n.name == m]
+        if len(fs) != 1 or fs[0].args.defaults or fs[0].args.vararg or fs[0].args.kwarg or fs[0].args.kwonlyargs: raise Unsupported("signature of the callee %s" % m, e)
+        names = [a.arg for a in fs[0].args.args]
+        if len(names) != len(cs["params"]): raise Unsupported("signature of the callee %s" % m, e)
+        b = self.bind_args(e, names[1:], {})
+        site = names[1:1 + len(e.args)] + [k.arg for k in e.keywords]
+        if site != [n for n in names[1:] if n in site]: raise Unsupported("keyword arguments of self.%s not in the order of its signature (evaluation order)" % m, e)
+        args = []; g = []
+        for n, ty in list(zip(names, cs["params"]))[1:]:
+            t, aty, gg = self.expr(b[n], env); g += gg
+            if ty in ERASED: continue
+            if aty != ty and not (aty in NUMERIC and ty in NUMERIC): raise Unsupported("argument %r of type %s, expected %s" % (n, show(aty), show(ty)), b[n])
+            args.append(coerce(t, aty, ty, b[n]) if aty != ty else t)
+        for a, ty in so["inputs"]:          # the attributes the callee reads: what this method has assigned so far, or its own inputs
+            if ty in ERASED: continue
+            if a in self.s_out:
+                if self.s_out[a] != ty: raise Unsupported("self.%s has type %s here, %s in the callee" % (a, show(self.s_out[a]), show(ty)), e)
+                if "self." + a not in env["defined"]: raise Unsupported("self.%s may be unassigned when self.%s is called" % (a, m), e)
+                args.append("(at_%s s)" % a)
+            elif a in self.s_in:
+                if self.s_in[a] != ty: raise Unsupported("self.%s has type %s here, %s in the callee" % (a, show(self.s_in[a]), show(ty)), e)
+                args.append("in_" + a)
+            else: raise Unsupported("the callee self.%s reads self.%s, which is not in the typed embedding of this method" % (m, a), e)
+        if so.get("lengths") or so.get("flows"): raise Unsupported("callee with an edge table", e)
+        for key, (nm, ty) in so.get("calls", {}).items():
+            if self.s_calls.get(key) != (nm, ty): raise Unsupported("the callee self.%s uses the input expression %s" % (m, key), e)
+            args.append("in_" + nm)
+        if callee not in self.callees: self.callees.append(callee)
+        return self.guarded(g, "py_emit_call (fun s => Gen_%s.fn %s) emit_out" % (callee, " ".join(args)))
 
     def bind_args(self, e, names, defaults):
         """positional / keyword arguments of a call -> {parameter name: node}"""
@@ -1226,6 +1349,16 @@ class Fn:
             if ty in ERASED:
                 if aty not in (STR, HNAME): raise Unsupported("argument %r of type %s" % (n, show(aty)), b[n])
                 continue
+            if ty == HNAME and aty != HNAME and isinstance(b[n], ast.JoinedStr) and len(b[n].values) == 4 \
+                    and isinstance(b[n].values[0], ast.Constant) and isinstance(b[n].values[2], ast.Constant) \
+                    and (b[n].values[0].value, b[n].values[2].value) in HNAME_FSTRING2 \
+                    and all(isinstance(b[n].values[q], ast.FormattedValue) and b[n].values[q].format_spec is None and b[n].values[q].conversion == -1 for q in (1, 3)):
+                nd = b[n]; parts = []
+                for q in (1, 3):
+                    it_, ity_, ig_ = self.expr(nd.values[q].value, env)
+                    if ity_ != INT or ig_: raise Unsupported("helper name built from a value of type %s" % show(ity_), nd)
+                    parts.append(it_)
+                args.append("(V %s (vkey2 (%s, %s)))" % (HNAME_FSTRING2[(nd.values[0].value, nd.values[2].value)], parts[0], parts[1])); continue
             if ty == HNAME and aty != HNAME:
                 nd = b[n]
                 if not (isinstance(nd, ast.JoinedStr) and len(nd.values) == 2 and isinstance(nd.values[0], ast.Constant) and nd.values[0].value in HNAME_FSTRING
@@ -1329,6 +1462,8 @@ class Fn:
             if isinstance(s.value, ast.Constant) and isinstance(s.value.value, str): return None, True   # docstring / string statement
             if self.emits and self.self_call(s.value, env) is not None:
                 return self.emit_call_stmt(s.value, env), True
+            sm = self.self_method_call(s.value, env)
+            if sm is not None: return sm, True
             if self.builds and self.graph_call_stmt(s.value, env) is not None:
                 return self.graph_call_stmt(s.value, env), True
             if is_logging_call(s.value):
@@ -1348,6 +1483,14 @@ class Fn:
             b, _ = self.block(s.body, env)
             env["defined"] = d0; env["inloop"] = inloop0
             return "py_while fuel (fun s => %s)\n%s" % (t, self.ind(b)), True
+        if isinstance(s, ast.Assign) and len(s.targets) == 1 and self.self_attr(s.targets[0]) is not None and self.s_in.get(self.self_attr(s.targets[0])) == WRAP:
+            # self.solver = sw.SolverWrapper(**self.solver_options): a fresh, empty wrapper — exactly the state the emitter starts from.
+            # Only as the first statement (nothing emitted before it can be lost), with the module imported under that name.
+            body = [x for x in self.fdef.body if not (isinstance(x, ast.Expr) and isinstance(x.value, ast.Constant) and isinstance(x.value.value, str))]
+            if not (self.emits and body and body[0] is s and ast.unparse(s.value) == "sw.SolverWrapper(**self.solver_options)"
+                    and self.module_imports.get("sw") == "flowpaths.utils.solverwrapper"):
+                raise Unsupported("assignment to the wrapper attribute (only `self.solver = sw.SolverWrapper(**self.solver_options)` as the first statement)", s)
+            return None, True
         if isinstance(s, ast.Assign) and len(s.targets) == 1 and self.self_attr(s.targets[0]) in self.s_out \
                 and not (self.emits and self.self_call(s.value, env) == "add_variables"):
             a = self.self_attr(s.targets[0]); want = self.s_out[a]
@@ -1423,6 +1566,8 @@ class Fn:
             if nar and not nar[1]: env["narrow"] = dict(narrow0, **{nar[0]: True})
             b, fb = self.block(s.orelse, env); db = env["defined"]
             env["narrow"] = narrow0
+            if nar and not nar[1] and not fa and not s.orelse:          # `if self.x is None: return / raise`: afterwards self.x is not None
+                env["narrow"] = dict(narrow0, **{nar[0]: True})
             env["aliased"] = env["aliased"] | ala
             env["defined"] = (da & db) if (fa and fb) else (da if fa else (db if fb else da | db))
             return self.guarded(g, "py_if (fun s => %s)\n%s\n%s" % (t, self.ind(a), self.ind(b))), fa or fb
@@ -1456,7 +1601,9 @@ class Fn:
     def stable_iter(self, node):
         """an iterated expression that denotes the same list every time it is evaluated during the call: range / len of input attributes"""
         for n in ast.walk(node):
-            if isinstance(n, ast.Name) and n.id != self.sparam and n.id not in ("len", "range"): return False
+            if isinstance(n, ast.Name) and n.id != self.sparam and n.id not in ("len", "range") \
+                    and not (n.id in self.locals and self.assign_count.get(n.id) == 1 and n.id not in self.params) \
+                    and not (n.id in self.params and n.id not in self.locals and self.ptype.get(n.id) == INT): return False
             if isinstance(n, ast.Attribute) and (self.self_attr(n) is None or self.self_attr(n) in self.s_out or self.self_attr(n) not in self.s_in): return False
             if isinstance(n, ast.Call) and not (isinstance(n.func, ast.Name) and n.func.id in ("len", "range")): return False
             if isinstance(n, (ast.Subscript, ast.ListComp, ast.GeneratorExp, ast.Lambda)): return False
@@ -1474,9 +1621,18 @@ class Fn:
         terms = []; falls = True
         for s in stmts:
             t, f = self.stmt(s, env)
-            if isinstance(s, ast.For) and isinstance(s.target, ast.Name) and self.stable_iter(s.iter) and not self.own_breaks(s.body):
-                it, _, ig = self.expr(s.iter, env)
-                if not ig: env["postloop"] = dict(env.get("postloop", {}), **{s.target.id: it})     # after the loop the name is bound iff the list was non-empty
+            if isinstance(s, ast.For) and self.stable_iter(s.iter) and not self.own_breaks(s.body):
+                pl = {k: list(v) for k, v in env.get("postloop", {}).items()}
+                f = s; conds = []
+                while isinstance(f, ast.For) and self.stable_iter(f.iter) and not self.own_breaks(f.body):
+                    try: it, _, ig = self.expr(f.iter, env)
+                    except Unsupported: break
+                    if ig: break
+                    conds = conds + [it]
+                    if isinstance(f.target, ast.Name):       # after the loop the name is bound iff every list on the way to it was non-empty
+                        pl.setdefault(f.target.id, []).append(({id(f)}, list(conds)))
+                    f = f.body[0] if f.body else None      # a loop that is the FIRST statement of the body runs whenever the body does
+                env["postloop"] = pl
             if t is not None: terms.append(t)
             if not f: falls = False        # later statements are dead code but are still translated
         if not terms: return "py_skip", falls
@@ -1613,8 +1769,10 @@ REJECT = {
     "slice with a step": "r = seq[::2]\nreturn 0",
     "sum()": "return sum(edge_lengths.get(e, 1) for e in seq)",
     "any()": "r = 0\nif any(e in seq for e in seq):\n    r = 1\nreturn r",
-    "comprehension with three generators": "s = [e for e in seq for f in seq for g in seq]\nreturn 0",
-    "comprehension filter with a partial operation": "s = [e for e in seq if edge_lengths[e] > 0]\nreturn 0",
+    "comprehension with four generators": "s = [0 for a in seq for b in seq for c in seq for d in seq]\nreturn 0",
+    "loop variable after a loop whose sibling also binds it differently": "for e in seq:\n    pass\nfor e in paths_in_DAG:\n    pass\nraise ValueError(f'{e}')",
+    "partial operation in one of two comprehension filters": "s = [e for e in seq if edge_lengths[e] > 0 if e in edge_lengths]\nreturn 0",
+    "assignment to an attribute of a parameter": "seq.solver = 0\nreturn 0",
     "comprehension filter with two generators": "s = [e for p in paths_in_DAG for e in seq if e in edge_lengths]\nreturn 0",
     "comprehension filter that is not a boolean": "s = [e for e in seq if len(seq)]\nreturn 0",
     "loop variable in an f-string after a loop over a local list": "for e in seq:\n    pass\nraise ValueError(f'{e}')",
